@@ -194,6 +194,21 @@ func c06Run(c *C) {
 			return
 		}
 		if len(s) > 0 {
+			// the same through ExecuteBytes; the returned bytes are the caller's and must stay intact while other texts are rendered
+			set, _ := newSet(emptySetFiles)
+			if tpl, err := set.FromString(s); err == nil {
+				kept, _ := tpl.ExecuteBytes(ctx)
+				other := c06RandText(r, 300) + "|" + strings.Repeat("x", len(s))
+				if t2, err2 := set.FromString(other); err2 == nil {
+					t2.Execute(ctx)
+					t2.ExecuteBytes(ctx)
+				}
+				c.Eval(3)
+				if string(kept) != s {
+					c.Fail("returned-bytes-changed-later", D{"source": q(s), "bytes_after_another_rendering": q(string(kept)), "other_source": q(other)})
+					return
+				}
+			}
 			c.Nontrivial("id:" + s)
 			c.Cover("identity_random")
 		}
